@@ -927,7 +927,10 @@ def _run_case(case, ctr, rand_classes):
             # program over (r, r) is alive (expressions are interned by name)
             if not collided and not (other.name == r.name):
                 expZ = (O - R) if prev else (R - O)
-                for variant in ("alone", "with r - r alive"):
+                # (the aliased variant first: expressions are interned by name in a weak table, so the
+                # outcome depends on which same-named expression was built first and is still alive)
+                for variant in ("with r - r alive", "alone"):
+                    gc.collect()
                     try:
                         alias = (r - r) if variant != "alone" else None
                         pair = (other - r) if prev else (r - other)
